@@ -121,6 +121,58 @@ add(
     "DESIGN.md section 4, C05",
 )
 
+add(
+    "C01",
+    "H1/H2 layout monitors recording every layer solved inside the real Force.compute(); exact-rational separation oracle",
+    "Seeded hostile label sets and engine configurations (near-touching chains, exact-fit and misfit packings, ties, half-integers, "
+    "non-integer widths, a label wider than the layer, clusters up to 200) are laid out by the real engine; the removeOverlap hook records "
+    "chain order, widths, stub flags, monitor-computed targets and final positions of every layer; the oracle checks target order, adjacent "
+    "separation (w1+w2)/2+spacing-1 (2-unit spacing between stubs, spacing taken from the ENGINE options) and the chain-implied separation "
+    "of every other pair. Held = on the layers observed.",
+    "Trusted: oracles/layout.py (fractions). Non-adjacent stub pairs with nodeSpacing<2 are held to what one-constraint-per-adjacent-pair implies (DESIGN.md C01.O.iii).",
+    "DESIGN.md section 4, C01",
+)
+add(
+    "C02",
+    "H1/H2 layout monitors + exact weighted isotonic regression (PAVA on Fractions) as reference optimum per recorded layer",
+    "For every layer recorded inside the real Force.compute() the unique least-squares optimum is recomputed independently (isotonic "
+    "regression of target minus cumulative gaps, clipped to the bounds when the layer fits; targets of deeper layers are the final positions "
+    "of the item's own stub, computed by the monitor) and every reported position must lie within 0.5+1e-3 of it; the H1 hook also checks "
+    "that no layer moves after its own solve. Layers that do not fit between both bounds are out of scope. Held = on the layers observed.",
+    "Trusted: oracles/layout.py; the clipping characterisation of box-constrained isotonic regression; 1e-3 covers the 1e10-weight soft walls.",
+    "DESIGN.md section 4, C02",
+)
+add(
+    "C03",
+    "H1/H2 layout monitors + bounds/spill oracle against the engine's own options",
+    "Every recorded layer is judged against the ENGINE's minPos/maxPos (so a bound that is not handed to the layer solver is caught): if the "
+    "layer fits (or only one bound exists) every item edge lies within 0.5+1e-3 of the bounds; otherwise the full C01 separation holds and "
+    "the extent exceeds the available width. Workload includes exact-fit, barely-unfit (1e-6, 0.5, 1), gross misfit, one-sided, negative and "
+    "fractional bounds and deeper stub layers. Held = on the layers observed.",
+    "Trusted: oracles/layout.py. Layers within 1e-9 of exact fit are judged as fitting.",
+    "DESIGN.md section 4, C03",
+)
+add(
+    "C04",
+    "H4/H1 monitors (Distributor.distribute input/output by identity; Force.compute then getLayers()) + structural layering oracle",
+    "Every layering produced by the real distributor - driven directly with hostile options and in situ through Force.compute() - is checked "
+    "structurally and exactly: each input label in exactly one layer, contiguous layers, a complete parent/child stub chain per label with the "
+    "label's position, payload and the configured stub width, no foreign items, the engine reporting exactly this layering (getLayers, "
+    "layerIndex), single layer when there is no layer width or the labels fit the density budget, and the per-layer capacity bound of the "
+    "default algorithm. Held = on the layerings observed.",
+    "Trusted: oracles/layering.py. Requirements within 1e-9 (relative) of the budget accept either outcome (the code sums widths in floats).",
+    "DESIGN.md section 4, C04",
+)
+add(
+    "C06",
+    "history workload on one engine under the H1 monitor; reference model = history-free run (fresh engine, fresh sorted nodes)",
+    "Seeded 2-8 step histories (set labels / compute / re-compute / set_options / second label set / label objects previously laid out by "
+    "another engine / permuted input) are played on one real Force engine; after every compute the (position,width)->(layer,position) map "
+    "must equal that of a fresh engine with the accumulated options on fresh nodes. Held = on the histories played.",
+    "Trusted: the history-free run of the same code as reference (the property is history-independence). Proviso of the statement enforced by the generator.",
+    "DESIGN.md section 4, C06",
+)
+
 NOT_YET = {}
 
 
